@@ -32,7 +32,10 @@ def handleC08S (toks : List String) : String :=
     let rounds := parseRounds rest
     let (_, outs) := rounds.foldl (fun (acc : SyncSt × List String) r =>
       let (st', err) := syncRound acc.1 r.1 r.2
-      (st', acc.2 ++ [s!"err={if err then "1" else "0"} count={st'.count} names={canonNames st'.count} prefix=1 old=1"])) ({}, [])
+      -- the request the service receives: current = requests − suggestionCount, total = requests (C09); none when nothing is due
+      let cur := r.1 - (acc.1.count : Int)
+      let ask := if cur ≤ 0 then "cur=- tot=-" else s!"cur={cur} tot={r.1}"
+      (st', acc.2 ++ [s!"err={if err then "1" else "0"} count={st'.count} names={canonNames st'.count} prefix=1 old=1 {ask}"])) ({}, [])
     " ; ".intercalate outs
   | _ => "bad-op"
 
@@ -65,6 +68,9 @@ def oracleLineC08S (toks out : List String) : String :=
         else if cur > 0 && kind == "ok" && (names.length : Int) != req then some "correct-reply-not-appended-exactly"
         else if (cur ≤ 0 || kind != "ok") && names.length != prevLen then some "assignments-changed-without-a-correct-reply"
         else if (cur > 0 && kind != "ok") != (get f "err" == "1") then some "error-not-reported-or-spurious"
+        else if cur > 0 && (get f "cur" != toString cur || get f "tot" != toString req) then
+          some s!"request-numbers-differ-from-requests-minus-suggestionCount-and-requests cur={get f "cur"} tot={get f "tot"}"
+        else if cur ≤ 0 && get f "cur" != "-" then some "algorithm-called-although-nothing-was-requested"
         else none
       (names.length, maxReq', b)
     match ((rounds.zip obs).foldl step (0, 0, none)).2.2 with
